@@ -64,3 +64,75 @@ c04_gamma!(c04_gamma_f64, f64);
 //@ bounds: every pair of f32 bit patterns except scale = +inf
 //@ assumes: scale = +inf unspecified; libm::sqrtf by contract
 c04_gamma!(c04_gamma_f32, f32);
+
+// ------------------------------------------------------------------------------------------
+// C03: Gamma samples are >= 0, never NaN, infinite only for an infinite parameter (documented)
+// ------------------------------------------------------------------------------------------
+macro_rules! c03_gamma {
+    ($name:ident, $f:ty, $minsh:expr, $maxsh:expr, $minsc:expr, $maxsc:expr) => {
+        vproof_zstub! {
+            #[kani::unwind(3)]
+            fn $name() {
+                let shape: $f = kani::any();
+                let scale: $f = kani::any();
+                let d = match Gamma::<$f>::new(shape, scale) { Ok(d) => d, Err(_) => return };
+                kani::assume(shape >= $minsh && shape <= $maxsh && scale >= $minsc && scale <= $maxsc);
+                // one Marsaglia-Tsang trial: normal draw + Open01 draw (+ one more Open01 draw for shape < 1)
+                let mut rng = SymRng::new(3);
+                let x: $f = d.sample(&mut rng);
+                vassert!(x == x, "Gamma sample is NaN");
+                vassert!(x >= 0.0, "Gamma sample is negative");
+                vassert!(x.is_finite(), "Gamma sample is infinite for finite parameters");
+                match d.repr {
+                    One(_) => vassert!(rng.pos == 1, "Gamma(shape = 1) is one Exp1 draw"),
+                    Large(_) => vassert!(rng.pos == 2, "Gamma(shape > 1): an accepted first trial consumes 2 words"),
+                    Small(_) => vassert!(rng.pos == 3, "Gamma(shape < 1): an accepted first trial consumes 3 words"),
+                }
+                kani::cover!(shape < 1.0, "small shape");
+                kani::cover!(shape == 1.0, "shape one");
+                kani::cover!(shape > 1.0, "large shape");
+            }
+        }
+    };
+}
+//@ id: c03_gamma_f64
+//@ prop: C03
+//@ tier: quick
+//@ cap: 1500
+//@ funcs: Gamma::<f64>::new; Gamma::<f64>::sample; GammaLargeShape::sample_unscaled (Marsaglia-Tsang trial); GammaSmallShape::sample; Exp::sample
+//@ bounds: shape in [1e-3, 1e6], scale in [1e-100, 1e100]; first Marsaglia-Tsang trial (<= 3 words)
+//@ assumes: utils::ziggurat, libm::{log,pow,sqrt} by contract
+c03_gamma!(c03_gamma_f64, f64, 1e-3, 1e6, 1e-100, 1e100);
+//@ id: c03_gamma_f32
+//@ prop: C03
+//@ tier: quick
+//@ cap: 1500
+//@ funcs: Gamma::<f32>::new; Gamma::<f32>::sample
+//@ bounds: shape in [1e-2, 1e6], scale in [1e-30, 1e30]; first trial
+//@ assumes: utils::ziggurat, libm::{logf,powf,sqrtf} by contract
+c03_gamma!(c03_gamma_f32, f32, 1e-2, 1e6, 1e-30, 1e30);
+
+macro_rules! c03_gamma_inf {
+    ($name:ident, $f:ty) => {
+        vproof_zstub! {
+            fn $name() {
+                let shape: $f = kani::any();
+                let scale: $f = kani::any();
+                kani::assume(shape == <$f>::INFINITY || scale == <$f>::INFINITY);
+                let d = match Gamma::<$f>::new(shape, scale) { Ok(d) => d, Err(_) => return };
+                let mut rng = SymRng::new(1);
+                let x: $f = d.sample(&mut rng);
+                vassert!(x == <$f>::INFINITY, "Gamma with an infinite parameter must yield +inf (documented), not NaN");
+                kani::cover!(true, "reached");
+            }
+        }
+    };
+}
+//@ id: c03_gamma_inf_f64
+//@ prop: C03
+//@ tier: quick
+//@ cap: 300
+//@ funcs: Gamma::<f64>::new; Gamma::<f64>::sample (infinite shape or scale)
+//@ bounds: shape = +inf or scale = +inf
+//@ assumes: utils::ziggurat by contract (Exp1 draw > 0)
+c03_gamma_inf!(c03_gamma_inf_f64, f64);
